@@ -170,6 +170,7 @@ TABLE = [
     # scoping like Python: a name bound to None stays bound after a comprehension reuses it; a loop variable named txn / field is that variable
     ('((x := None) == None) and (len([x for x in orders]) == 3) and (x == None)', True), ('((x := None) == None) and any(x.qty > 1 for x in orders) and (x == None)', True),
     ('sum(txn.amount for txn in orders)', 38.5), ('[txn.qty for txn in orders]', [2, 1, 5]), ('len([field for field in orders if field.id == "78"])', 1),
+    ('sum(Txn.amount for Txn in orders)', 38.5), ('[FIELD.qty for FIELD in orders]', [2, 1, 5]), ('sum(TXN.amount for txn in orders)', 38.5),
     ('sum(txn.amount for txn in orders) > 0 and txn.amount == 15.5', True), ('len([field.id for field in orders]) == 3 and field.kind == "wire"', True),
     ('"a" in [r.id for r in empty]', False), ('field.kind in [r.kind for r in dated]', True), ('field.kind not in [r.kind for r in dated]', False),
 ]
